@@ -607,6 +607,17 @@ Definition delete_before (P : params) (i : N) (d : disk) : err * disk :=
   | (InOld k, Some _) => (Ok, mkdisk (skipn k (d_files d)) (d_cur d) (d_next d) (d_meta d))
   end.
 
+(* DeleteBefore in which the removal of the (i+1)-th of the files to delete fails (/repo 9bfc733: the files are removed
+   oldest first, the first failure stops the loop and is reported, the files still on disk stay part of the log).
+   None: no such removal in this call. *)
+Definition delete_fail (P : params) (j : N) (i : nat) (d : disk) : option disk :=
+  let keep := mkdisk (skipn i (d_files d)) (d_cur d) (d_next d) (d_meta d) in
+  match slot_ge P d j with
+  | (_, None) => None
+  | (InCur, Some _) => if Nat.ltb i (length (d_files d)) then Some keep else None
+  | (InOld k, Some _) => if Nat.ltb i k then Some keep else None
+  end.
+
 (* --- reopen: everything volatile is forgotten and re-derived from the files --- *)
 
 Definition forget (f : file) : file := mkfile (f_id f) (f_n f) (f_rows f) (f_size f) None false.
